@@ -5,6 +5,7 @@
 import PygModel.Align
 import PygProofs.Lemmas.AlignLemmas
 import PygProofs.Lemmas.AlignAsOf
+import PygProofs.Lemmas.AlignTree
 import PygProofs.Lemmas.FillIndep
 
 namespace Pyg.Props.C03
@@ -208,6 +209,34 @@ theorem arr_len_inner (n : Nat) (ns : List Nat) :
         · simp [Nat.min_eq_right h']
       · simp [h]
 
+/-- outer join of bare arrays: the common length is the maximum of the lengths -/
+theorem arr_len_outer (n : Nat) (ns : List Nat) :
+    ∃ r, joinLen .outer (n :: ns) = some r ∧ (∀ k ∈ n :: ns, k ≤ r) ∧ r ∈ n :: ns := by
+  refine ⟨_, rfl, ?_, ?_⟩
+  · induction ns generalizing n with
+    | nil => simp
+    | cons x xs ih =>
+      intro k hk
+      simp only [List.foldl_cons]
+      have h1 := ih (max n x)
+      rcases List.mem_cons.mp hk with rfl | hk
+      · have := h1 (max k x) (by simp); omega
+      · rcases List.mem_cons.mp hk with rfl | hk
+        · have := h1 (max n k) (by simp); omega
+        · exact h1 k (by simp [hk])
+  · induction ns generalizing n with
+    | nil => simp
+    | cons x xs ih =>
+      simp only [List.foldl_cons]
+      have := ih (max n x)
+      rcases List.mem_cons.mp this with h | h
+      · rw [h]; rcases Nat.le_total n x with h' | h'
+        · simp [Nat.max_eq_right h']
+        · simp [Nat.max_eq_left h']
+      · simp [h]
+
+theorem arr_len_left (n : Nat) (ns : List Nat) : joinLen .left (n :: ns) = some n := rfl
+
 /-! ### containers: structure kept, non-timeseries passed through, one common index -/
 
 /-- `df_sync` keeps container types, keys, order and sizes, the kind of every member, and every member that is
@@ -274,6 +303,35 @@ theorem presync_common_index (how : How) (m : Option Dir) (args t' : Tree) (ix :
 
 /-! ### columns -/
 
+/-- the common column set: inner = the names present in EVERY multi-column header (no name twice), outer = present in
+SOME header, left / right = the first / last header -/
+theorem joinCols_inner (c : List String) (cs : List (List String)) (hn : c.Nodup) :
+    ∃ r, joinCols .inner (c :: cs) = some r ∧ r.Nodup ∧ ∀ x, x ∈ r ↔ ∀ h ∈ c :: cs, x ∈ h := by
+  refine ⟨_, rfl, ?_, fun x => by rw [mem_foldl_interS]; simp⟩
+  induction cs generalizing c with
+  | nil => exact hn
+  | cons y ys ih => exact ih _ (nodup_interS c y hn)
+
+theorem joinCols_outer (c : List String) (cs : List (List String)) (hn : ∀ h ∈ c :: cs, h.Nodup) :
+    ∃ r, joinCols .outer (c :: cs) = some r ∧ r.Nodup ∧ ∀ x, x ∈ r ↔ ∃ h ∈ c :: cs, x ∈ h := by
+  refine ⟨_, rfl, ?_, fun x => by rw [mem_foldl_unionS]; simp⟩
+  induction cs generalizing c with
+  | nil => exact hn c (by simp)
+  | cons y ys ih =>
+    refine ih _ ?_
+    intro h hh
+    rcases List.mem_cons.mp hh with rfl | hh
+    · exact nodup_unionS c y (hn c (by simp)) (hn y (by simp))
+    · exact hn h (by simp [hh])
+
+theorem joinCols_left (c : List String) (cs : List (List String)) : joinCols .left (c :: cs) = some c := rfl
+
+theorem joinCols_right (c : List String) (cs : List (List String)) : joinCols .right (c :: cs) = (c :: cs).getLast? := by
+  simp only [joinCols, List.getLastD_eq_getLast?]
+  cases h : (c :: cs).getLast? with
+  | none => simp at h
+  | some r => rfl
+
 /-- a multi-column frame is put onto the common column set: its own columns keep their values, the others are NaN;
 Series and one-column frames are left alone -/
 theorem recolumn_spec (cs : List String) (f : Frame) (hm : isMulti f = true) :
@@ -301,6 +359,241 @@ theorem recolumn_single (cols : Option (List String)) (s : Bool) (f : Frame) (h 
     have hm : isMulti f = false := by rcases h with h | h; cases h; exact h
     cases cols <;> simp [recolumnLeaf, hm]
 
+/-- the column pass of `df_sync` on one member (`columns=None`: nothing) -/
+def colPass (ch : Option How) (hdrs : List (List String)) (l : Leaf) : Res Leaf :=
+  match ch with
+  | Option.none => .ok l
+  | some c => recolumnLeaf (joinCols c hdrs) l
+
+/-! ### containers, position by position: member `k` of the result is the aligned member `k` of the input -/
+
+/-- `df_sync` works member by member: the result has as many members as the input, and member `k` of the result is
+member `k` of the input reindexed onto the joint index and then (with a column policy) put on the common column set.
+A model that permuted, dropped or blanked members would not satisfy this. -/
+theorem sync_pointwise (how : How) (m : Option Dir) (ch : Option How) (tag : Tag) (kids : List (String × Tree)) (t' : Tree)
+    (h : sync how m ch (.node tag kids) = .ok t') :
+    t'.leaves.length = (Tree.node tag kids).leaves.length ∧
+    ∀ (k : Nat) (l : Leaf), (Tree.node tag kids).leaves[k]? = some l →
+      ∃ l1 l', reindexLeaf (dfIndex how (Tree.node tag kids).flatTop) m l = .ok l1 ∧
+        colPass ch (multiCols (Tree.node tag kids).flatTop) l1 = .ok l' ∧ t'.leaves[k]? = some l' := by
+  simp only [sync] at h
+  split at h
+  · cases h
+  · rename_i t1 h1
+    have p1 := pairs_reindexTree _ m _ _ h1
+    cases ch with
+    | none =>
+      simp at h; subst h
+      refine ⟨p1.length_eq, fun k l hk => ?_⟩
+      obtain ⟨l1, hl1, hr⟩ := p1.get k l hk
+      exact ⟨l1, l1, hr, rfl, hl1⟩
+    | some c =>
+      simp only at h
+      have p2 := pairs_mapM _ _ _ h
+      have p := p1.comp p2
+      refine ⟨p.length_eq, fun k l hk => ?_⟩
+      obtain ⟨l', hl', l1, hr, hc⟩ := p.get k l hk
+      exact ⟨l1, l', hr, hc, hl'⟩
+
+/-- a timeseries member: member `k` of the result is that series / frame reindexed onto the joint index (its values
+are then given by `reindex_values` / `reindex_ffill` / `reindex_bfill`), on the common column set when it has several columns -/
+theorem sync_member (how : How) (m : Option Dir) (ch : Option How) (tag : Tag) (kids : List (String × Tree)) (t' : Tree)
+    (ix : List Int) (hix : dfIndex how (Tree.node tag kids).flatTop = .times ix)
+    (h : sync how m ch (.node tag kids) = .ok t') (k : Nat) (s : Bool) (f : Frame)
+    (hk : (Tree.node tag kids).leaves[k]? = some (.ts s f)) :
+    ∃ l', t'.leaves[k]? = some l' ∧
+      colPass ch (multiCols (Tree.node tag kids).flatTop) (.ts s (reindexFrame f ix m)) = .ok l' := by
+  obtain ⟨_, hp⟩ := sync_pointwise how m ch tag kids t' h
+  obtain ⟨l1, l', h1, h2, h3⟩ := hp k _ hk
+  rw [hix] at h1
+  simp [reindexLeaf] at h1; subst h1
+  exact ⟨l', h3, h2⟩
+
+/-- ... in particular a Series (or any member when no column policy applies) is EXACTLY its reindexed self -/
+theorem sync_member_series (how : How) (m : Option Dir) (ch : Option How) (tag : Tag) (kids : List (String × Tree)) (t' : Tree)
+    (ix : List Int) (hix : dfIndex how (Tree.node tag kids).flatTop = .times ix)
+    (h : sync how m ch (.node tag kids) = .ok t') (k : Nat) (s : Bool) (f : Frame)
+    (hk : (Tree.node tag kids).leaves[k]? = some (.ts s f)) (hs : ch = Option.none ∨ s = true ∨ isMulti f = false) :
+    t'.leaves[k]? = some (.ts s (reindexFrame f ix m)) := by
+  obtain ⟨l', h1, h2⟩ := sync_member how m ch tag kids t' ix hix h k s f hk
+  cases ch with
+  | none => simp [colPass] at h2; rw [h1, h2]
+  | some c =>
+    simp only [colPass] at h2
+    have hm : s = true ∨ isMulti (reindexFrame f ix m) = false := by
+      rcases hs with hs | hs | hs
+      · cases hs
+      · exact Or.inl hs
+      · refine Or.inr ?_
+        have := (reindex_index f ix m).2.1
+        simp only [Frame.names] at this
+        have hl : (reindexFrame f ix m).cols.length = f.cols.length := by
+          have := congrArg List.length this; simpa using this
+        simpa [isMulti, hl] using hs
+    rw [recolumn_single _ s _ hm] at h2
+    cases h2; exact h1
+
+/-- a frame with several columns comes out on the joint index AND on the common column set, each of its own columns
+with the reindexed values, the others NaN -/
+theorem sync_member_frame (how : How) (m : Option Dir) (c : How) (tag : Tag) (kids : List (String × Tree)) (t' : Tree)
+    (ix : List Int) (cs : List String) (hix : dfIndex how (Tree.node tag kids).flatTop = .times ix)
+    (hcs : joinCols c (multiCols (Tree.node tag kids).flatTop) = some cs)
+    (h : sync how m (some c) (.node tag kids) = .ok t') (k : Nat) (f : Frame)
+    (hk : (Tree.node tag kids).leaves[k]? = some (.ts false f)) (hm : isMulti f = true) :
+    ∃ g, t'.leaves[k]? = some (.ts false g) ∧ g.idx = ix ∧ g.names = cs ∧
+      ∀ c ∈ cs, ∀ col, g.cols.find? (·.1 == c) = some col →
+        col.2 = match (reindexFrame f ix m).cols.find? (·.1 == c) with
+                | some fc => fc.2
+                | Option.none => List.replicate ix.length Option.none := by
+  obtain ⟨l', h1, h2⟩ := sync_member how m (some c) tag kids t' ix hix h k false f hk
+  simp only [colPass, hcs] at h2
+  have hm' : isMulti (reindexFrame f ix m) = true := by
+    have := (reindex_index f ix m).2.1
+    simp only [Frame.names] at this
+    have hl : (reindexFrame f ix m).cols.length = f.cols.length := by
+      have := congrArg List.length this; simpa using this
+    simpa [isMulti, hl] using hm
+  obtain ⟨g, hg, gi, gn, gv⟩ := recolumn_spec cs (reindexFrame f ix m) hm'
+  rw [hg] at h2; cases h2
+  refine ⟨g, h1, by rw [gi]; exact (reindex_index f ix m).1, gn, ?_⟩
+  intro c hc col hcol
+  have := gv c hc col hcol
+  rw [(reindex_index f ix m).1] at this
+  exact this
+
+/-- a bare array in an all-array container: member `k` of the result is that array aligned at the end to the joint length -/
+theorem sync_member_arr (how : How) (ch : Option How) (tag : Tag) (kids : List (String × Tree)) (t' : Tree)
+    (n : Nat) (hix : dfIndex how (Tree.node tag kids).flatTop = .len n)
+    (h : sync how Option.none ch (.node tag kids) = .ok t') (k : Nat) (xs : Col)
+    (hk : (Tree.node tag kids).leaves[k]? = some (.arr xs)) :
+    t'.leaves[k]? = some (.arr (alignArr n xs)) := by
+  obtain ⟨_, hp⟩ := sync_pointwise how Option.none ch tag kids t' h
+  obtain ⟨l1, l', h1, h2, h3⟩ := hp k _ hk
+  rw [hix] at h1
+  have : l1 = .arr (alignArr n xs) := by
+    simp [reindexLeaf, fillMethods, fillnaArr] at h1; exact h1.symm
+  subst this
+  cases ch with
+  | none => simp [colPass] at h2; rw [h3, h2]
+  | some c => simp [colPass, recolumnLeaf] at h2; rw [h3, ← h2]
+
+/-- a member that is no timeseries and no array is, at its position, returned as it is -/
+theorem sync_member_other (how : How) (m : Option Dir) (ch : Option How) (tag : Tag) (kids : List (String × Tree)) (t' : Tree)
+    (h : sync how m ch (.node tag kids) = .ok t') (k : Nat) (v : Val)
+    (hk : (Tree.node tag kids).leaves[k]? = some (.other v)) : t'.leaves[k]? = some (.other v) := by
+  obtain ⟨_, hp⟩ := sync_pointwise how m ch tag kids t' h
+  obtain ⟨l1, l', h1, h2, h3⟩ := hp k _ hk
+  have : l1 = .other v := by cases hd : dfIndex how (Tree.node tag kids).flatTop <;> rw [hd] at h1 <;> simp [reindexLeaf] at h1 <;> exact h1.symm
+  subst this
+  cases ch with
+  | none => simp [colPass] at h2; rw [h3, h2]
+  | some c => simp [colPass, recolumnLeaf] at h2; rw [h3, ← h2]
+
+/-- the arguments a `presync`-decorated function receives, position by position -/
+theorem presync_pointwise (how : How) (m : Option Dir) (args t' : Tree) (h : presyncArgs how m args = .ok t') :
+    t'.leaves.length = args.leaves.length ∧
+    ∀ (k : Nat) (l : Leaf), args.leaves[k]? = some l →
+      ∃ l', reindexLeaf (dfIndex how args.flatTop) m l = .ok l' ∧ t'.leaves[k]? = some l' := by
+  have p := pairs_reindexTree _ m _ _ h
+  refine ⟨p.length_eq, fun k l hk => ?_⟩
+  obtain ⟨l', h1, h2⟩ := p.get k l hk
+  exact ⟨l', h2, h1⟩
+
+theorem presync_member (how : How) (m : Option Dir) (args t' : Tree) (ix : List Int)
+    (hix : dfIndex how args.flatTop = .times ix) (h : presyncArgs how m args = .ok t') (k : Nat) (s : Bool) (f : Frame)
+    (hk : args.leaves[k]? = some (.ts s f)) : t'.leaves[k]? = some (.ts s (reindexFrame f ix m)) := by
+  obtain ⟨l', h1, h2⟩ := (presync_pointwise how m args t' h).2 k _ hk
+  rw [hix] at h1; simp [reindexLeaf] at h1; subst h1; exact h2
+
+/-! ### the joint index is taken over EVERY timeseries of the container -/
+
+/-- in a container without tuples (the statement: nested lists / dicts) the members the joint index is computed from
+are ALL members, at any depth, in order -/
+theorem flatTop_covers (tag : Tag) (kids : List (String × Tree)) (h : kidsTupleFree kids = true) :
+    (Tree.node tag kids).flatTop = (Tree.node tag kids).leaves := by
+  simp only [Tree.flatTop, Tree.leaves]; exact flatKids_eq_leaves kids h
+
+/-- inner join over a nested container: after `df_sync` every timeseries anywhere in the result sits on ONE index `r`,
+and `t ∈ r` iff EVERY timeseries anywhere in the input has `t` -/
+theorem sync_index_inner (m : Option Dir) (ch : Option How) (tag : Tag) (kids : List (String × Tree)) (t' : Tree)
+    (hf : kidsTupleFree kids = true)
+    (hsorted : ∀ l ∈ (Tree.node tag kids).leaves, ∀ s f, l = .ts s f → f.Sorted)
+    (hne : ∃ s f, Leaf.ts s f ∈ (Tree.node tag kids).leaves)
+    (h : sync .inner m ch (.node tag kids) = .ok t') :
+    ∃ r, SortedL r ∧ (∀ l ∈ t'.leaves, ∀ s f, l = .ts s f → f.idx = r) ∧
+      ∀ t, t ∈ r ↔ ∀ s f, Leaf.ts s f ∈ (Tree.node tag kids).leaves → t ∈ f.idx := by
+  have hcov := flatTop_covers tag kids hf
+  have hmem : ∀ ix, ix ∈ tsIndexes (Tree.node tag kids).leaves ↔ ∃ s f, Leaf.ts s f ∈ (Tree.node tag kids).leaves ∧ f.idx = ix := by
+    intro ix
+    simp only [tsIndexes, List.mem_filterMap]
+    constructor
+    · rintro ⟨l, hl, e⟩
+      cases l with
+      | ts s f => simp at e; exact ⟨s, f, hl, e⟩
+      | arr _ => simp at e
+      | other _ => simp at e
+    · rintro ⟨s, f, hl, e⟩; exact ⟨_, hl, by simp [e]⟩
+  cases hixs : tsIndexes (Tree.node tag kids).leaves with
+  | nil =>
+    obtain ⟨s, f, hl⟩ := hne
+    have := (hmem f.idx).mpr ⟨s, f, hl, rfl⟩
+    rw [hixs] at this; cases this
+  | cons i0 is =>
+    have hs0 : SortedL i0 := by
+      obtain ⟨s, f, hl, e⟩ := (hmem i0).mp (by rw [hixs]; simp)
+      rw [← e]; exact hsorted _ hl s f rfl
+    obtain ⟨r, hr, hsr, hmr⟩ := index_inner i0 is hs0
+    have hix : dfIndex .inner (Tree.node tag kids).flatTop = .times r := by
+      rw [hcov]; simp only [dfIndex, hixs, hr]
+    refine ⟨r, hsr, sync_common_index .inner m ch tag kids t' r hix h, ?_⟩
+    intro t
+    rw [hmr, ← hixs]
+    constructor
+    · intro hall s f hl; exact hall f.idx ((hmem _).mpr ⟨s, f, hl, rfl⟩)
+    · intro hall j hj
+      obtain ⟨s, f, hl, e⟩ := (hmem j).mp hj
+      rw [← e]; exact hall s f hl
+
+/-- outer join: `t ∈ r` iff SOME timeseries anywhere in the input has `t` -/
+theorem sync_index_outer (m : Option Dir) (ch : Option How) (tag : Tag) (kids : List (String × Tree)) (t' : Tree)
+    (hf : kidsTupleFree kids = true)
+    (hsorted : ∀ l ∈ (Tree.node tag kids).leaves, ∀ s f, l = .ts s f → f.Sorted)
+    (hne : ∃ s f, Leaf.ts s f ∈ (Tree.node tag kids).leaves)
+    (h : sync .outer m ch (.node tag kids) = .ok t') :
+    ∃ r, SortedL r ∧ (∀ l ∈ t'.leaves, ∀ s f, l = .ts s f → f.idx = r) ∧
+      ∀ t, t ∈ r ↔ ∃ s f, Leaf.ts s f ∈ (Tree.node tag kids).leaves ∧ t ∈ f.idx := by
+  have hcov := flatTop_covers tag kids hf
+  have hmem : ∀ ix, ix ∈ tsIndexes (Tree.node tag kids).leaves ↔ ∃ s f, Leaf.ts s f ∈ (Tree.node tag kids).leaves ∧ f.idx = ix := by
+    intro ix
+    simp only [tsIndexes, List.mem_filterMap]
+    constructor
+    · rintro ⟨l, hl, e⟩
+      cases l with
+      | ts s f => simp at e; exact ⟨s, f, hl, e⟩
+      | arr _ => simp at e
+      | other _ => simp at e
+    · rintro ⟨s, f, hl, e⟩; exact ⟨_, hl, by simp [e]⟩
+  cases hixs : tsIndexes (Tree.node tag kids).leaves with
+  | nil =>
+    obtain ⟨s, f, hl⟩ := hne
+    have := (hmem f.idx).mpr ⟨s, f, hl, rfl⟩
+    rw [hixs] at this; cases this
+  | cons i0 is =>
+    have hs0 : SortedL i0 := by
+      obtain ⟨s, f, hl, e⟩ := (hmem i0).mp (by rw [hixs]; simp)
+      rw [← e]; exact hsorted _ hl s f rfl
+    obtain ⟨r, hr, hsr, hmr⟩ := index_outer i0 is hs0
+    have hix : dfIndex .outer (Tree.node tag kids).flatTop = .times r := by
+      rw [hcov]; simp only [dfIndex, hixs, hr]
+    refine ⟨r, hsr, sync_common_index .outer m ch tag kids t' r hix h, ?_⟩
+    intro t
+    rw [hmr, ← hixs]
+    constructor
+    · rintro ⟨j, hj, ht⟩
+      obtain ⟨s, f, hl, e⟩ := (hmem j).mp hj
+      exact ⟨s, f, hl, by rw [e]; exact ht⟩
+    · rintro ⟨s, f, hl, ht⟩; exact ⟨f.idx, (hmem _).mpr ⟨s, f, hl, rfl⟩, ht⟩
+
 /-! ### non-vacuity -/
 
 example : joinIndex .inner [[1, 2, 4, 7], [2, 3, 4], [0, 2, 4, 9]] = some [2, 4] := by decide
@@ -318,6 +611,17 @@ and returned `a = [1, NaN, NaN]`) -/
 example : let f : Frame := { idx := [0, 1], cols := [("a", [some 1, Option.none]), ("b", [Option.none, some 2])] }
     (reindexFrame f [0, 1, 2] (some .ffill)).cols = [("a", [some 1, some 1, some 1]), ("b", [Option.none, some 2, some 2])] ∧
     (reindexFrame f [0, 1, 2] (some .bfill)).cols = [("a", [some 1, Option.none, Option.none]), ("b", [some 2, some 2, Option.none])] := by
+  decide
+/-- `sync_member` / `sync_index_inner` on a nested, tuple-free container: the hypotheses hold and the members come out in place -/
+example : let t : Tree := .node .list [("", .leaf (.ts true { idx := [1, 2, 4], cols := [("", [some 1, Option.none, some 3])] })),
+                                       ("", .node .dict [("k", .leaf (.ts true { idx := [2, 3, 4], cols := [("", [some 5, some 6, Option.none])] })),
+                                                         ("j", .leaf (.other (.cell (.int 7))))])]
+    kidsTupleFree (match t with | .node _ ks => ks | _ => []) = true ∧
+    dfIndex .inner t.flatTop = .times [2, 4] ∧
+    (match sync .inner (some .ffill) Option.none t with
+     | .ok t' => t'.leaves.map fun l => match l with | .ts _ f => some f | _ => Option.none
+     | .error _ => []) =
+      [some { idx := [2, 4], cols := [("", [some 1, some 3])] }, some { idx := [2, 4], cols := [("", [some 5, some 6])] }, Option.none] := by
   decide
 example : alignArr 2 [some 1, some 2, some 3] = [some 2, some 3] ∧
     alignArr 4 [some 1, some 2] = [Option.none, Option.none, some 1, some 2] ∧ alignArr 0 [some 1] = [] := by decide
